@@ -162,6 +162,21 @@ type World struct {
 	clockActor bool
 	// Races are the data races detected so far (R6 builds with RaceOn).
 	Races []Race
+	// randState is the state of the world's own pseudo-random generator: the
+	// seam behind math/rand, math/rand/v2 and crypto/rand of simulated code
+	// (simrand, simrand2, simcrand).  It is not the choice source: what the
+	// code under test draws must not shift the schedule and fault choices.
+	randState uint64
+}
+
+// NextRand returns the next value of the world's pseudo-random generator
+// (splitmix64 from a fixed start: the same sequence in every run).
+func (w *World) NextRand() uint64 {
+	w.randState += 0x9E3779B97F4A7C15
+	z := w.randState
+	z = (z ^ (z >> 30)) * 0xBF58476D1CE4E5B9
+	z = (z ^ (z >> 27)) * 0x94D049BB133111EB
+	return z ^ (z >> 31)
 }
 
 type chanReg struct {
